@@ -88,7 +88,7 @@ static const char* BUILTIN_EXPRS[] = {
 
 struct C02 : Profile {
   const char* id() const override { return "C02"; }
-  long budget(const std::string& tier) const override { return tier == "thorough" ? 200000 : 6000; }
+  long budget(const std::string& tier) const override { return tier == "thorough" ? 200000 : 12000; }
   std::string rule() const override {
     return "plan = generated program (no injected runtime faults) + a schedule of compile units over its top-level statements: one unit (the reference), one statement at a time "
            "through the interactive parser (parse, execute, parse, execute ...), and seeded groupings; in the thorough tier every 2-way split of the statement list is "
